@@ -662,3 +662,9 @@ _add(
     "C25",
     m("fork-candidates-exclude-child", D, "        fork_candidates = [*parent_handles, child_handle]\n", "        fork_candidates = [*parent_handles]\n", "C25.5"),
 )
+
+_add(
+    "C16",
+    m("expr-state-raw-export-set", E, "            \"export_options\": sorted(self._export_options) if self._export_options else set(),\n            \"length\"", "            \"export_options\": self._export_options,\n            \"length\"", "C16.7"),
+    m("task-state-raw-export-set", T, "            \"export_options\": sorted(self._export_options) if self._export_options else set(),\n        }", "            \"export_options\": self._export_options or set(),\n        }", "C16.7"),
+)
